@@ -115,7 +115,7 @@ package badger
 // (ghost pending = deletes in the current, not yet committed batch), and an error reported by the
 // scanning goroutine (version resolution failure, iterator error) is never turned into success.
 //@ func BadgerDB.DeleteRange
-//@   prop C05 C01
+//@   prop C05 C01 C02
 //@   safety_off
 //@   calls_havoc
 //@   modifies *
